@@ -393,10 +393,21 @@ pub fn recover_replay(a: &Args) -> Report {
         clients.push(make_client(cc, &oprf, &mut rep));
       }
     }
-    if prop == "C17" && clients.iter().any(|c| c.is_none()) {
-      // non-UTF-8 epoch under this valuation, or a non-local client: not expressible in the string API
-      rep.count("valuations_skipped_not_utf8", 1);
-      continue;
+    // C17: clients that are not expressible in the string API (non-UTF-8 epoch under this valuation,
+    // randomness-server source) are left out; behaviours that mention them are skipped below
+    let absent: Vec<bool> = clients.iter().map(|c| c.is_none()).collect();
+    if prop == "C17" {
+      if absent.iter().all(|a| *a) {
+        rep.count("valuations_skipped_not_utf8", 1);
+        continue;
+      }
+      for (i, c) in clients.iter_mut().enumerate() {
+        if c.is_none() {
+          // placeholder, never used (lines mentioning it are skipped)
+          let cc = ClientCfg { m: vec![i as u8], e: vec![], t: 1, aux: None, src: "local".into() };
+          *c = make_client(cc, &oprf, &mut rep);
+        }
+      }
     }
     if clients.iter().any(|c| c.is_none()) {
       rep.violation(&prop, "Message::generate", "generation-failed",
@@ -412,6 +423,9 @@ pub fn recover_replay(a: &Args) -> Report {
         continue;
       }
       let ib = line["ib"].as_array().unwrap();
+      if prop == "C17" && ib.iter().any(|e| absent[e[0].as_u64().unwrap() as usize - 1]) {
+        continue;
+      }
       let want_ok = line["ok"].as_u64().unwrap() == 1;
       let grp = line["grp"].as_u64().unwrap() as usize;
       let faulty = ib.iter().any(|e| e[1].as_str().unwrap() != "none");
